@@ -144,6 +144,9 @@ func (c muxCfg) pset(kind string, p int) paramSet {
 		}
 		return out
 	case "av1":
+		if c.ParamDelta == "color" && p == 1 {
+			return av1HDRParams
+		}
 		return av1Params[p]
 	case "vp9":
 		switch c.ParamDelta {
@@ -303,6 +306,13 @@ var av1Params = []paramSet{
 	{seqHdr: []byte{0x8, 0x0, 0x0, 0x0, 0x42, 0xab, 0xbf, 0xc3, 0x71, 0xab, 0xe6, 0x1}, width: 1920, height: 1080},
 }
 
+// av1HDRParams: main profile, level index 14, 8 bit 4:2:0, colour description present with primaries 9 (BT.2020), transfer
+// characteristics 16 (PQ), matrix coefficients 9 - three values that differ from one another, so their order in CODECS shows.
+var av1HDRParams = paramSet{seqHdr: []byte{
+	0x08, 0x04, 0x00, 0x00, 0x00, 0x04, 0x00, 0x00, 0x00, 0xf3, 0x00, 0x00, 0x0e, 0x55, 0x77, 0xf8,
+	0x73, 0xd0, 0x02, 0x7d, 0x10, 0x91, 0x00, 0x90, 0x40,
+}, width: 1920, height: 1082}
+
 var vp9Params = []paramSet{
 	{keyHdr: []byte{0x82, 0x49, 0x83, 0x42, 0x00, 0x77, 0xf0, 0x32, 0x34, 0x30, 0x38, 0x24, 0x1c, 0x19, 0x40, 0x18, 0x03, 0x40, 0x5f, 0xb4}, width: 1920, height: 804},
 	{keyHdr: []byte{0x82, 0x49, 0x83, 0x42, 0x40, 0xef, 0xf0, 0x86, 0xf4, 0x04, 0x21, 0xa0, 0xe0, 0x00, 0x30, 0x70, 0x00, 0x00, 0x00, 0x01}, width: 3840, height: 2160},
@@ -351,6 +361,7 @@ type muxCfg struct {
 	PartMS    int         `json:"part_min_ms"`
 	Disk      bool        `json:"disk,omitempty"`
 	MaxSize   uint64      `json:"max_size,omitempty"`
+	Filler    bool        `json:"filler,omitempty"`      // h264: the extra payload bytes of a unit travel in a filler data NAL unit (type 12), as constant-bit-rate encoders emit them
 	OpusTicks int         `json:"opus_ticks,omitempty"`  // Opus packet duration in 48 kHz ticks (default 960 = 20 ms)
 	NTPStepMS int         `json:"ntp_step_ms,omitempty"` // the publisher's clock is stepped once per second of media: units of second k carry NTP = T0 + time + k*k*NTPStepMS ms
 	OpusMix   bool        `json:"opus_mix,omitempty"`    // packet k of one WriteOpus call lasts 20, 10, 40 ms (k mod 3)
@@ -409,6 +420,9 @@ func (c muxCfg) String() string {
 	s := fmt.Sprintf("%s[%s] n=%d S=%dms P=%dms %s", c.Variant, strings.Join(ts, "+"), c.SegCount, c.SegMinMS, c.PartMS, d)
 	if c.MaxSize != 0 {
 		s += fmt.Sprintf(" max=%d", c.MaxSize)
+	}
+	if c.Filler {
+		s += " filler"
 	}
 	if c.NTPStepMS != 0 {
 		s += fmt.Sprintf(" ntp-step=%dms", c.NTPStepMS)
@@ -612,6 +626,12 @@ func (mi *muxInst) videoData(u wunit) [][]byte {
 			}
 			au = append(au, append([]byte{0x41}, payloadTail(u, 0)...))
 		}
+		if mi.cfg.Filler && u.Size > 0 {
+			// the same number of bytes, but as stuffing behind a picture without extra payload
+			last := len(au) - 1
+			au[last] = au[last][:len(au[last])-u.Size]
+			au = append(au, append([]byte{0x0c}, bytes.Repeat([]byte{0xff}, u.Size-1)...))
+		}
 	case "h265b":
 		if u.Params != 0 {
 			au = append(au, mi.cfg.pset(kind, p).vps, mi.cfg.pset(kind, p).sps, mi.cfg.pset(kind, p).pps)
@@ -636,7 +656,7 @@ func (mi *muxInst) videoData(u wunit) [][]byte {
 		}
 		// a temporal unit is random access iff it carries a sequence header
 		if u.RA {
-			au = append(au, av1Params[p].seqHdr)
+			au = append(au, mi.cfg.pset(kind, p).seqHdr)
 		}
 		au = append(au, append([]byte{6 << 3}, payloadTail(u, 0)...))
 	case "vp9":
